@@ -271,6 +271,8 @@ def execute(b: Built, op: dict, src: Built | None = None, foreign_tree=None):
                 r = b.node(op["p"]).add_child(
                     fl.data(op["d"]), before=_pos_arg(b, op["pos"]), **xid_kw(op["xid"]), **kk(op["k"])
                 )
+            elif name == "add_child_nid":
+                r = b.node(op["p"]).add_child(fl.data(op["d"]), node_id=b.nodes[op["x"]].node_id)
             elif name == "append_child":
                 r = b.node(op["p"]).append_child(fl.data(op["d"]), **xid_kw(op["xid"]), **kk(op["k"]))
             elif name == "prepend_child":
